@@ -105,3 +105,17 @@ def fold_disabled(rng, lines):
         out[j] = rng.choice(['#[strum(disabled, props(k = "v"))]', '#[strum(props(k = "v"), disabled)]', '#[strum(disabled,)]',
                              '#[strum(props(gone = true), disabled)]'])
     return out
+
+
+def extra_derives(key, candidates, p=0.3):
+    """a second #[derive(..)] line with other strum derives on the same enum (own PRNG stream keyed by `key`, so adding
+    it leaves every other generated choice as it was): what one derive generates must not depend on its neighbours"""
+    if MINIMAL[0]:
+        return []
+    import random
+    r = random.Random("extra-derives-" + key)
+    if r.random() >= p:
+        return []
+    k = r.randint(1, min(3, len(candidates)))
+    picked = r.sample(candidates, k)
+    return ["#[derive(%s)]" % ", ".join(picked)]
